@@ -1,7 +1,7 @@
 //! Case kinds LOAD and TOKENS: the whole load / write pipeline on the real implementation.
 //!
 //! LOAD   case ::= ( s<a2l text> i<strict> <optstr a2ml_spec> i<cycles> )
-//!        answer ::= ( sPANIC ) | ( sERR <diag> )
+//!        answer ::= ( sPANIC <floattable> ) | ( sERR <diag> <floattable> )
 //!                 | ( sOK <node A2lFile> ( <diag>* ) s<text1> ( <cycle>* ) <floattable> )
 //!        cycle  ::= ( sOK|sERR|sPANIC i<model equal to previous model> s<written text> )
 //!        (a panic after a successful first load, i.e. in the dump or in the writer, is reported as
@@ -336,13 +336,26 @@ fn floattable(text: &str) -> Sx {
         if !seen.insert(tt) {
             continue;
         }
-        let (ok, bits, plain, exp) = match tt.parse::<f64>() {
-            Ok(v) => (true, f64_bits(v), format!("{}", v), format!("{:e}", v)),
-            Err(_) => (false, Sx::I(0), String::new(), String::new()),
+        // parser.rs get_double / get_float: hex notation is read as u64 and converted
+        let hex = tt.starts_with("0x") || tt.starts_with("0X");
+        let v64: Option<f64> = if hex {
+            u64::from_str_radix(&tt[2..], 16).ok().map(|n| n as f64)
+        } else {
+            tt.parse::<f64>().ok()
         };
-        let (ok32, bits32) = match tt.parse::<f32>() {
-            Ok(v) => (true, f64_bits(v as f64)),
-            Err(_) => (false, Sx::I(0)),
+        let v32: Option<f32> = if hex {
+            u64::from_str_radix(&tt[2..], 16).ok().map(|n| n as f32)
+        } else {
+            tt.parse::<f32>().ok()
+        };
+        let (ok, bits, plain, exp) = match v64 {
+            Some(v) => (true, f64_bits(v), format!("{}", v), format!("{:e}", v)),
+            None => (false, Sx::I(0), String::new(), String::new()),
+        };
+        // an f32 value is written through add_float(value.into()), i.e. widened to f64 first
+        let (ok32, bits32, plain32, exp32) = match v32 {
+            Some(v) => (true, f64_bits(v as f64), format!("{}", v as f64), format!("{:e}", v as f64)),
+            None => (false, Sx::I(0), String::new(), String::new()),
         };
         out.push(Sx::L(vec![
             Sx::s(tt),
@@ -352,6 +365,8 @@ fn floattable(text: &str) -> Sx {
             Sx::s(&exp),
             Sx::b(ok32),
             bits32,
+            Sx::s(&plain32),
+            Sx::s(&exp32),
         ]));
     }
     Sx::L(out)
@@ -373,15 +388,15 @@ pub fn run_load(case: &Sx) -> Sx {
     let cycles = c[3].as_usize();
 
     let (file, log) = match load(&text, &spec, strict) {
-        Err(_) => return Sx::L(vec![Sx::s("PANIC")]),
-        Ok(Err(e)) => return Sx::L(vec![Sx::s("ERR"), diag_a2l(&e)]),
+        Err(_) => return Sx::L(vec![Sx::s("PANIC"), floattable(&text)]),
+        Ok(Err(e)) => return Sx::L(vec![Sx::s("ERR"), diag_a2l(&e), floattable(&text)]),
         Ok(Ok(v)) => v,
     };
     let Ok(dump) = catch_unwind(AssertUnwindSafe(|| dump_a2lfile(&file))) else {
-        return Sx::L(vec![Sx::s("PANIC"), Sx::s("dump")]);
+        return Sx::L(vec![Sx::s("PANIC"), Sx::s("dump"), floattable(&text)]);
     };
     let Ok(text1) = catch_unwind(AssertUnwindSafe(|| file.write_to_string())) else {
-        return Sx::L(vec![Sx::s("PANIC"), Sx::s("write")]);
+        return Sx::L(vec![Sx::s("PANIC"), Sx::s("write"), floattable(&text)]);
     };
 
     let mut cyc = vec![];
